@@ -272,6 +272,15 @@ func (s *Session) OpenStream() (*Stream, error) {
 	// Register the stream
 	stream := newStream(s, id)
 	s.streamLock.Lock()
+	if s.streams == nil {
+		// The session was closed after the IsClosed check above and its cleanup has already dropped
+		// the stream table. shutdownErr was set before that cleanup was posted.
+		s.streamLock.Unlock()
+		if err := s.shutdownErr; err != nil {
+			return nil, err
+		}
+		return nil, ErrSessionShutdown
+	}
 	if _, ok := s.streams[id]; ok {
 		s.streamLock.Unlock()
 		return nil, ErrStreamsExhausted
